@@ -465,7 +465,37 @@ Example C06_prefix2_follow_needed :
         (length (unparse2 d) + 1).
 Proof. cbv zeta. split; [vm_compute; reflexivity|]. split; [vm_compute; reflexivity|]. vm_compute. discriminate. Qed.
 
+(** ** ... with [ok_doc2 cx d] as the hypothesis, for documents that END WITH WHITESPACE
+    (e.g. a final newline) in contexts none of whose specials sequences contains a backslash
+    or a closing brace ([specials_plain], decidable, true of the default context): then the
+    side conditions, evaluated against the trailing whitespace, still hold in front of a stray
+    closing token and any garbage ([C06_follow_extension_partial], proofs in
+    [Proofs/Prefix2Follow.v]: every side condition of the extended grammar — longest-match
+    specials, absent optional arguments, control-word lookahead, paragraph breaks, verbatim
+    scans — is stable when a non-empty follow string is extended by something that starts
+    like a closing token).  Without trailing whitespace the last item matters
+    ([C06_prefix2_follow_needed]) and [ok_doc2_before] has to be checked directly. *)
+From PLV Require Import Proofs.Prefix2Follow.
+
+Theorem C06_prefix_closing2_ws_partial : forall cx d c g,
+  ok_doc2 cx d = true -> d_trail2 d <> [] -> specials_plain cx = true -> stray_wf c ->
+  parse_top (unparse2 d ++ stray_text c ++ g) true cx (walker_state cx)
+  = Ok (ONode (Some (gen_nodelist 0 (fst (tree_of2 cx (walker_state cx) 0 d)))))
+       (length (unparse2 d) + length (stray_text c)).
+Proof. exact prefix_closing2_ws. Qed.
+
+Theorem C06_follow_extension_partial : forall cx ps ex l (G : str) c g,
+  ok_items2 cx ps ex l G = true -> G <> [] -> specials_plain cx = true -> stray_wf c ->
+  ok_items2 cx ps ex l (G ++ stray_text c ++ g) = true.
+Proof. exact ok_items2_before_stray. Qed.
+
+Example C06_prefix_closing2_ws_nonvacuous :
+  specials_plain default_ctx = true /\ ok_doc2 default_ctx c06_doc2 = true /\ d_trail2 c06_doc2 <> [].
+Proof. split; [vm_compute; reflexivity|]. split; [vm_compute; reflexivity | discriminate]. Qed.
+
 Print Assumptions C06_prefix_closing2_partial.
 Print Assumptions C06_prefix_closing2_items_partial.
 Print Assumptions C06_own_error_is_the_collectors.
 Print Assumptions C06_collector_error_reproduced.
+Print Assumptions C06_prefix_closing2_ws_partial.
+Print Assumptions C06_follow_extension_partial.
